@@ -24,8 +24,9 @@ LEVEL_NOTE = ('Kinds are decided by the class lattice as encoded for the '
               'set/dict views => Set, generators/map/filter/'
               'OrderingIterable => other iterables). The "always succeeds" '
               'half of the property is violated when a container is a dict '
-              'key or set member (known findings below); convert_input_data '
-              'round trip is covered only for the container kinds.')
+              'key or set member (known findings below); convert_input_data is '
+              'under contract for tuples, lists, mappings and scalars (sets '
+              'and lazy iterables: frames only).')
 
 
 def hashability_probe(ctx):
@@ -80,5 +81,7 @@ def units(ctx):
     us += pyvc_units(core_glue.contracts(), 'C10', core_glue.setup)
     us += [contract_unit(c, world_setup=st)
            for c, st in core_glue.yi_contracts()]
+    us += [contract_unit(c, world_setup=utils.setup_input)
+           for c in utils.input_contracts()]
     us.append(frame_unit('C10'))
     return us
